@@ -228,7 +228,7 @@ theorem poolMug_inv (P : World → Prop) (p : Pid)
     (hfail : ∀ w m, P w → P (World.fail w m))
     (hpools : ∀ (w : World) ps, P w → P { w with pools := ps })
     (hrem : ∀ w z pl, P w → P (removeHeld w z (.pool pl)).1)
-    (hs : ∀ w a s sig t pri, P w → P (sched w a s sig t pri).1)
+    (hs : ∀ w s t pri, P w → P (sched w aIntr s sigPreempted t pri).1)
     (hupd : ∀ w pl n, P w → P (poolUpdateRecord w pl p n))
     (hrec : ∀ w pl, P w → P (recordPool w pl))
     (hsig : ∀ w g, P w → P (signal w g)) :
@@ -245,8 +245,8 @@ theorem poolMug_inv (P : World → Prop) (p : Pid)
     all_goals first
       | with_reducible exact h
       | with_reducible exact hfail _ _ h
-      | with_reducible exact ih _ _ _ (hupd _ _ _ (hs _ _ _ _ _ _ (hrem _ _ _ (hpools _ _ h))))
-      | with_reducible exact hsig _ _ (hrec _ _ (hin _ _ _ (hupd _ _ _ (hs _ _ _ _ _ _ (hrem _ _ _ (hpools _ _ h))))))
+      | with_reducible exact ih _ _ _ (hupd _ _ _ (hs _ _ _ _ (hrem _ _ _ (hpools _ _ h))))
+      | with_reducible exact hsig _ _ (hrec _ _ (hin _ _ _ (hupd _ _ _ (hs _ _ _ _ (hrem _ _ _ (hpools _ _ h))))))
 
 /-- the invariant together with "the caller is alive", which every step of a library call keeps -/
 def DeadRecA (p : Pid) (w : World) : Prop := DeadRec w ∧ (w.proc p).status = .running
@@ -260,7 +260,7 @@ theorem dra_poolMug {p : Pid} {w : World} (h : DeadRecA p w) (fuel pl rem : Nat)
   · intro w m h; exact dra_of_procs h (by simp)
   · intro w ps h; exact dra_of_procs h rfl
   · intro w z pl h; exact ⟨dr_removeHeld h.1 z _, by simpa using h.2⟩
-  · intro w a s sig t pri h; exact dra_of_procs h (by simp)
+  · intro w s t pri h; exact dra_of_procs h (by simp)
   · intro w pl n h; exact ⟨dr_poolUpdateRecord h.1 pl p n h.2, by simpa using h.2⟩
   · intro w pl h; exact dra_of_procs h (by simp)
   · intro w g h; exact dra_of_procs h (by simp)
